@@ -30,7 +30,7 @@ func (c26) Budget(tier string) int {
 	if tier == "thorough" {
 		return 40000
 	}
-	return 1200
+	return 3600
 }
 
 func (c26) Describe() engine.Info {
